@@ -501,6 +501,50 @@ def loop_body_brace(body, i):
         j += 1
 
 
+def rw_chars_enumerate(body, log):
+    """R7: `for (I, C) in RECV.chars().enumerate() { B }` ->
+           { let n_chars = RECV.unicode_len(); let mut I: usize = 0; while I < n_chars { let C = RECV.get_char(I); B I += 1; } }
+       (A5: Chars/Enumerate yield (index, char) in order; the body must not `continue`)"""
+    tail = [".", "chars", "(", ")", ".", "enumerate", "(", ")"]
+    while True:
+        hit = None
+        for i in loop_positions(body):
+            if body[i] != "for":
+                continue
+            ob = loop_body_brace(body, i)
+            if body[ob - len(tail):ob] == tail:
+                hit = (i, ob)
+                break
+        if hit is None:
+            return body
+        i, ob = hit
+        j = i + 1
+        depth = 0
+        while True:
+            t = body[j]
+            if t in rtok.OPEN:
+                depth += 1
+            elif t in rtok.CLOSE:
+                depth -= 1
+            elif t == "in" and depth == 0:
+                break
+            j += 1
+        pat = body[i + 1:j]
+        if len(pat) != 5 or pat[0] != "(" or pat[2] != "," or pat[4] != ")":
+            raise GenError("R7: unsupported enumerate pattern: " + norm(pat))
+        iv, cv = pat[1], pat[3]
+        recv = body[j + 1:ob - len(tail)]
+        cb = match_close(body, ob)
+        inner = body[ob + 1:cb]
+        if "continue" in inner:
+            raise GenError("R7: loop body uses `continue`")
+        rep = (["{", "let", "n_chars", "="] + recv + [".", "unicode_len", "(", ")", ";", "let", "mut", iv, ":", "usize", "=", "0", ";",
+               "while", iv, "<", "n_chars", "{", "let", cv, "="] + recv + [".", "get_char", "(", iv, ")", ";"] + inner +
+               [iv, "+=", "1", ";", "}", "}"])
+        body = body[:i] + rep + body[cb + 1:]
+        log.append(("R7 for (i, c) in s.chars().enumerate() -> indexed char loop", 1))
+
+
 def rw_for_index(body, log):
     """R19: `for PAT in E.iter() {B}` / `for PAT in &E {B}` -> index loop over E
        { let mut idx_k: usize = 0; while idx_k < E.len() { let PAT = &E[idx_k]; B idx_k += 1; } }
@@ -687,6 +731,7 @@ def extract_fn(idx, c, rewrites, sig_only=False):
             log.append(("R25 block-local `const X: T = lit;` -> `let X: T = lit;`", nconst))
         body = rw_sum(body, log, None)
         body = rw_contains(body, log)
+        body = rw_chars_enumerate(body, log)
         body = rw_for_index(body, log)
     sig, body = rw_mut_params(sig, body, log)
     sig = strip_quals(sig)
@@ -934,6 +979,8 @@ def build_unit(idx, vc_verify, vc_trusted, spec_files, verif_root, only_fns=None
                 raise GenError("lost anchor: const %s not found" % arg)
             ct = rw_common(list(idx[arg].toks), [])
             ct = ["pub"] + ct[ct.index("const"):]
+            ct = replace_all(ct, [":", "&", "str"], [":", "&", "'static", "str"], [], "R29")
+            ct = replace_all(ct, [":", "&", "[", "u8", "]"], [":", "&", "'static", "[", "u8", "]"], [], "R29")
             em.add("// ---- const %s (extracted verbatim)" % arg)
             em.add(join(ct))
         if kind == "type":
